@@ -1,4 +1,8 @@
 import C4E.Props.C02
 import C4E.Props.C03
 import C4E.Props.C04
+import C4E.Props.C05
+import C4E.Props.C06
+import C4E.Props.C07
+import C4E.Props.C08
 import C4E.Props.C14
